@@ -116,8 +116,13 @@ func checkC04(e *Env) {
 	// (c) footer
 	wf := e.fn("bundle.writeFooter")
 	e.requireGates("GATE", wf, o0, noCfg,
-		gate.CallOK("F.size", "binary.Write", "local:b", "global:binary.BigEndian", "(conv(param:offset) + const:9)"),
-		gate.CallOK("F.wrap", "(*cbor.Encoder).EncodeByteString", "call:cbor.NewEncoder(param:w)", "call:(*bytes.Buffer).Bytes(local:b)"))
+		// the 8-byte big-endian of offset+9, staged in a buffer or in an array, wrapped in a CBOR byte string
+		either("F.size", "8-byte big-endian of offset + 9",
+			gate.CallOK("", "binary.Write", "local:b", "global:binary.BigEndian", "(conv(param:offset) + const:9)"),
+			gate.CallOK("", "(*cbor.Encoder).EncodeByteString", "call:cbor.NewEncoder(param:w)", "{be8((conv(param:offset) + const:9))|slice(be8((conv(param:offset) + const:9)),*)}")),
+		either("F.wrap", "written as a CBOR byte string to w",
+			gate.CallOK("", "(*cbor.Encoder).EncodeByteString", "call:cbor.NewEncoder(param:w)", "call:(*bytes.Buffer).Bytes(local:b)"),
+			gate.CallOK("", "(*cbor.Encoder).EncodeByteString", "call:cbor.NewEncoder(param:w)", "{be8((conv(param:offset) + const:9))|slice(be8((conv(param:offset) + const:9)),*)}")))
 	footerLast(e, wt)
 
 	// (d) accounting
